@@ -854,7 +854,10 @@ def np_sum(it, a, axis=None, keepdims=False):
             return LArr(nc, lambda j: _range_sum(it, lambda i: rd(i, j), nr))
         if axis == 1:
             return LArr(nr, lambda i: _range_sum(it, lambda j: rd(i, j), nc))
-        raise Unsupported("np.sum of 2-D array without axis")
+        if axis is None:
+            # the sum of all cells: the sum over the rows of the row sums
+            return _range_sum(it, lambda i: _range_sum(it, lambda j: rd(i, j), nc), nr)
+        raise Unsupported("np.sum of 2-D array with axis %r" % (axis,))
     if is_arr(a) or isinstance(a, (list, tuple, MapSeq)):
         if isinstance(a, (list, tuple)):
             return b_sum(it, list(a))
